@@ -138,6 +138,12 @@ pub fn run(ctx: &mut Ctx) {
                         }
                     },
                     "custom" if f["ty"]["id"] == "RaceLaps" || f["ty"]["id"] == "Fuel" || f["ty"]["id"] == "Fuel200" => for v in 0..=255u8 { variants.push(vec![v]); },
+                    // the two name tables, row by row: every declared track configuration, every built-in car, unknown, mods
+                    "custom" if f["ty"]["id"] == "Track" => for c in all_track_codes() { let mut b = c.as_bytes().to_vec(); b.resize(6, 0); variants.push(b); },
+                    "custom" if f["ty"]["id"] == "Vehicle" => {
+                        for n in ["XFG", "XRG", "XRT", "RB4", "FXO", "LX4", "LX6", "MRT", "UF1", "RAC", "FZ5", "FOX", "XFR", "UFR", "FO8", "FXR", "XRR", "FZR", "BF1", "FBM"] { variants.push(vec![n.as_bytes()[0], n.as_bytes()[1], n.as_bytes()[2], 0]); }
+                        for v in [0u32, 1, 0x00AB_CDEF, 0x00FF_FFFF, 0x0100_0000, 0x8047_4658, 0xFFFF_FFFF] { variants.push(v.to_le_bytes().to_vec()); }
+                    },
                     _ => {},
                 }
                 for v in variants {
